@@ -43,7 +43,13 @@ MANIFEST = {
             "kabsch_sander: residue pairs on {O..H distance ladder around the E=-0.5 root} x {N-H..O angle 180,150,120} x "
             "{C=O..H angle 180,150,120}, three competing acceptors in all 6 energy orders x 4 sequence positions, proline "
             "donors, CA-CA ladder around 0.9 nm, chain boundaries, water/ligand residues, donors whose predecessor lacks N, CA, both, "
-            "or is an acetyl cap but has C and O (hydrogen still placed from that C=O), windows of 1..3 frames. Oracle = the "
+            "or is an acetyl cap but has C and O (hydrogen still placed from that C=O), windows of 1..3 frames. History layer (each sequence "
+            "inside one process): 72 topologies of identical layout, bonds and residue names differing only in the element of the "
+            "donor heavy atom {O,N,C}, of the hydrogen {H,C}, of the acceptor {O,N,C}, the acceptor's name {OD1,O} and a ligand "
+            "donor's element {N,C}; every topology with each single-axis neighbour as [v,w] on two Topology objects (both orders) "
+            "and as [v->w->v] edited in place on one object (thorough: all ordered pairs) x exclude_water x sidechain_only, "
+            "baker_hubbard then wernet_nilsson, every result compared with the reference of ITS topology; the same for "
+            "kabsch_sander with renamed N/CA/C/O atoms and a PRO residue name. Oracle = the "
             "docstring criteria in float64 (strict inequalities; mean presence > freq; 0.33-0.000044 delta^2; "
             "E = 0.42*0.2*33.2*(1/rON+1/rCH-1/rOH-1/rCN) with H 0.1 nm from N along O->C of the preceding residue; best two per "
             "donor). The property is about threshold semantics on all structures; designed grids that straddle every threshold "
@@ -53,7 +59,9 @@ MANIFEST = {
             "DSSP), pairs beyond the 0.9 nm CA pre-filter, energies below DSSP's -9.9 floor. The ASan kernel seam and its toolchain are "
             "optional: if they do not build or run the memory check is skipped with a WARNING, never a check error. Angles/distances under periodic "
             "boundaries are minimum-image vectors from the hydrogen (donor) atom; cells are at least 2.6 nm wide. Trusted: "
-            "numpy float64, vlib/refmodels/mic.py.",
+            "numpy float64, vlib/refmodels/mic.py. History sequences have length <= 3 and use only atom.element / "
+            "atom.name / residue.name edits; the 16 history processes are fork()ed workers whose module state starts from the "
+            "parent's (which has made no hbond call).",
     "ref": "DESIGN.md §3 C14, §2.4",
 }
 
